@@ -128,6 +128,7 @@ type Frame struct {
 	names map[string]*Val
 	pkg   *types.Package
 	debugNames map[string]ssa.Value
+	debugAll   map[string][]ssa.Value
 }
 
 type retPoint struct {
@@ -333,6 +334,7 @@ func (x *Exec) computeLoops(fr *Frame) {
 	fn := fr.fn
 	// source names of single-assignment values
 	fr.debugNames = map[string]ssa.Value{}
+	fr.debugAll = map[string][]ssa.Value{}
 	multi := map[string]bool{}
 	for _, b := range fn.Blocks {
 		for _, ins := range b.Instrs {
@@ -355,6 +357,15 @@ func (x *Exec) computeLoops(fr *Frame) {
 				multi[id.Name] = true
 			}
 			fr.debugNames[id.Name] = d.X
+			dup := false
+			for _, o := range fr.debugAll[id.Name] {
+				if o == d.X {
+					dup = true
+				}
+			}
+			if !dup {
+				fr.debugAll[id.Name] = append(fr.debugAll[id.Name], d.X)
+			}
 		}
 	}
 	for n := range multi {
@@ -607,6 +618,30 @@ func (x *Exec) loopEnv(fr *Frame, li *loopInfo, st *State, override map[*ssa.Phi
 			if v := fr.env[phi]; v != nil && phi.Comment != "" {
 				env.vars[phi.Comment] = x.cvOfVal(v)
 			}
+		}
+	}
+	// names assigned more than once: the assignment whose block dominates this loop (nearest one)
+	for name, vals := range fr.debugAll {
+		if _, ok := env.vars[name]; ok {
+			continue
+		}
+		var best ssa.Value
+		for _, v := range vals {
+			ins, ok := v.(ssa.Instruction)
+			if !ok || ins.Block() == nil || !ins.Block().Dominates(li.head) {
+				continue
+			}
+			if _, defined := fr.env[v]; !defined {
+				continue
+			}
+			if best == nil || best.(ssa.Instruction).Block().Dominates(ins.Block()) {
+				best = v
+			}
+		}
+		if best != nil {
+			cv := x.cvOfVal(fr.env[best])
+			cv.Ty = best.Type()
+			env.vars[name] = cv
 		}
 	}
 	// string iterators of this loop: byte offset of the next rune
